@@ -69,7 +69,19 @@ func cmdCheck(argv []string) int {
 	os.RemoveAll(outDir)
 	os.MkdirAll(outDir, 0o755)
 
-	l, err := loadModule("/repo/module", []string{"./x/mhub2/...", "./x/oracle/..."}, nil, "")
+	var l *Loaded
+	var err error
+	if *prop == "C20" {
+		// the connector's go.mod replaces the module with a path outside /repo: load it with a rewritten modfile
+		mf, merr := connectorModfile()
+		if merr != nil {
+			fmt.Fprintln(os.Stderr, "load error:", merr)
+			return 2
+		}
+		l, err = loadModule("/repo/minter-connector", []string{"./command/...", "./context/...", "./minter/..."}, nil, mf)
+	} else {
+		l, err = loadModule("/repo/module", []string{"./x/mhub2/...", "./x/oracle/..."}, nil, "")
+	}
 	if err != nil {
 		fmt.Fprintln(os.Stderr, "load error:", err)
 		return 2
@@ -249,6 +261,34 @@ func cmdCheck(argv []string) int {
 		return 1
 	}
 	return 0
+}
+
+// connectorModfile writes a copy of minter-connector/go.mod whose replace directive points at /repo/module.
+func connectorModfile() (string, error) {
+	dir := "/verif/out/connector-mod"
+	os.MkdirAll(dir, 0o755)
+	data, err := os.ReadFile("/repo/minter-connector/go.mod")
+	if err != nil {
+		return "", err
+	}
+	var out []string
+	for _, ln := range strings.Split(string(data), "\n") {
+		if strings.HasPrefix(strings.TrimSpace(ln), "replace github.com/MinterTeam/mhub2/module") {
+			ln = "replace github.com/MinterTeam/mhub2/module => /repo/module"
+		}
+		out = append(out, ln)
+	}
+	if err := os.WriteFile(filepath.Join(dir, "go.mod"), []byte(strings.Join(out, "\n")), 0o644); err != nil {
+		return "", err
+	}
+	sum, err := os.ReadFile("/repo/minter-connector/go.sum")
+	if err != nil {
+		return "", err
+	}
+	if err := os.WriteFile(filepath.Join(dir, "go.sum"), sum, 0o644); err != nil {
+		return "", err
+	}
+	return filepath.Join(dir, "go.mod"), nil
 }
 
 func specShort(full string) string {
